@@ -313,6 +313,12 @@ def shrink(case, pred, env, budget=120):
     return best
 
 
+SOURCE_FINDINGS = {
+    "C07": [("removeProfileEvictsPg", "0", "source:postgres:remove_profile-keeps-key-cache-entry",
+             "the Postgres backend's remove_profile does not evict the removed profile from the handle's key cache")],
+}
+
+
 def load_known():
     p = os.path.join(VERIF, "known-findings.json")
     if not os.path.exists(p):
@@ -360,6 +366,15 @@ def run_one(argv):
         add_violation("extract", {"what": "translator could not read the source in the expected shape", "error": str(e),
                                   "broken": "tools/extract.py (Generated/*.lean)"}, no_input=True)
     env = {k: str(v) for k, v in gen_env.items()}
+    # findings that are facts about the SOURCE TEXT of code no harness in this sandbox can execute (the Postgres backend: there
+    # is no server): the extractor's flag decides; listed in known-findings.json -> KNOWN-FINDING, otherwise a violation
+    for flag, bad, sig, what in SOURCE_FINDINGS.get(prop, []):
+        if env.get("VERIF_FLAG_" + flag) == bad:
+            if sig in open_sigs:
+                known_hits[sig] = known_hits.get(sig, 0) + 1
+            else:
+                add_violation("source", {"property": prop, "what": what, "signature": sig,
+                                         "broken": f"source-derived flag {flag} (tools/extract.py) and the theorem of Props/{prop}.lean stated over it"}, no_input=True)
 
     # 2. proofs
     obligations, discharged, lean_fail, checker_cmd, thm_names = lean_check(prop, thorough, log)
